@@ -291,6 +291,17 @@ func (s *shard) FlushIndex() (err error) {
 func (s *shard) flushIndex() error {
 	ch := make(chan error, 1)
 	s.memIndexDB.Notify(&memdb.FlushEvent{
+		// NOTE: index building generates tag keys/values(metadata) then series, so the metadata which the
+		// switched index references exist when index is switched, they must be persisted before the index,
+		// if not, after restart the persisted series cannot find their tags(and are not built again).
+		BeforeFlush: func() error {
+			s.db.WaitFlushMetaCompleted()
+			if err := s.db.FlushMeta(); err != nil {
+				return err
+			}
+			s.db.WaitFlushMetaCompleted()
+			return nil
+		},
 		Callback: func(err error) {
 			ch <- err
 		},
